@@ -102,6 +102,10 @@ CHECKS = {
          "Two branches edited by their own sessions behind the production SQL engine: seeded row DML, ADD/DROP COLUMN, RENAME TABLE, DROP/CREATE TABLE, dolt_commit (recorded in the reference model with the table's name, schema and rows), tags and branches created at randomly chosen old commits, uncommitted changes, dolt_gc and clean restarts; every recorded commit is later read AS OF its hash / a tag / a branch, through the revision database name, and through dolt_history_<table> filtered to the commit, and must return exactly the recorded rows, or be refused where the table was absent.",
          "History-table reads are limited to commits of the reader's branch in which the table had its present name. AS OF timestamps are not generated.",
          "deterministic simulation: seeded histories with GC / restart events, recorded-state oracle over three historical read paths", "DESIGN.md §6.3 C33", "dsim-sql"),
+ "C47": ("exploration",
+         "One server directory with the root database and up to two nested databases behind the production SQL engine; seeded CREATE DATABASE, filling (tables, rows, commits, branches, tags, checkouts, staged and unstaged changes), DROP DATABASE, re-creation under the same name, CALL dolt_undrop (also with another letter case), CALL dolt_purge_dropped_databases and clean restarts; a logical fingerprint taken through SQL just before each DROP (branches, tags, logs, status and every row of every table of every branch) must be what dolt_undrop brings back; an undrop onto a live name must fail and leave the live database unchanged; after a purge nothing may come back.",
+         "Only the most recently dropped database of a name is expected back. No crash or I/O fault is injected into the directory moves.",
+         "deterministic simulation: seeded drop/create/undrop/purge/restart orders, SQL-level fingerprint oracle", "DESIGN.md §6.3 C47", "dsim-sql"),
  "C27": ("exploration",
          "2-3 sessions on main plus one on branch b1 behind the production SQL engine, one keyless table with a secondary index; seeded multi-row INSERT of duplicates, DELETE/UPDATE ... LIMIT n, COMMIT/ROLLBACK, edits on b1, CALL dolt_merge('b1'), clean restarts; a multiset reference model per session and branch predicts every GROUP BY over all columns, COUNT(*) and index lookup; transaction commits and branch merges must combine multiplicity changes row by row and must refuse/report when both sides changed the multiplicity of one row differently.",
          "Refusals for convergent changes (both sides made the same change) are dolt being conservative and are counted, not reported. dolt_merge runs under autocommit (conflicts => rolled back + error); the dolt_conflicts table contents are C43 (pure).",
